@@ -3,7 +3,7 @@
 Stages
   0. harness/props/c13_translate.py re-reads the schemathesis source and rewrites coq/theories/C13/Gen_C13.v (the entropy plan:
      one entry per draw site, Seeded/Ambient).  A call site that disappeared or changed shape -> broken tie.
-  1. proofs (Properties_C13.v: 22 theorems about run / gen_sites / interleave).
+  1. proofs (Properties_C13.v: 32 theorems about run / gen_sites / interleave / traffic_after / gen_carried).
   2. correspondence, plan vs runtime: the engine is run in fresh subprocesses with the Hypothesis boundary instrumented
      (harness/props/c13_runner.py): every PRNG Hypothesis hands to a test is recorded with its explicit seed and whether it was
      consulted.  Compared with the SAME Gallina definitions the theorems are about, evaluated by vm_compute:
@@ -17,6 +17,12 @@ Stages
      Every divergence is classified against the Ambient sites of the generated plan using the recorded evidence (an unseeded
      PRNG was consulted / a multipart boundary was drawn): known finding, or violation.  A divergence that only a different
      PYTHONHASHSEED explains is a violation (findings F4 / F5 are fixed, the plan has no HashOrder site).
+  4. process history (state carried between runs in ONE process): for pairs of configurations X, Y (allow_x00, header strategy, codec,
+     custom string formats registered / unregistered, generation modes, GraphQL nullables) over schemas with plain string headers /
+     cookies / formats: run X; Y; X in one process and X, Y alone in fresh processes; X(3rd) = X(1st) = X(fresh), Y(2nd) = Y(fresh).
+     Around every run the process-wide containers the translator found (module-level containers, results of zero-argument
+     lru_cache functions) are snapshotted and judged by Model_C13.overwritten_sites / changed_sites (vm_compute): what
+     C13_safe_entries_survive_runs proves about Memo / Registry sites.  Gen_C13.gen_carried is the list of carried sites.
 """
 from __future__ import annotations
 
@@ -305,6 +311,148 @@ class Scenario:
                 "headers": self.headers, "override": self.override, "slow_prefix": self.slow_prefix, "slow_s": self.slow_s, "preimport": self.preimport}
 
 
+# ----------------------------------------------------------------------------------------
+# process history: run X; run Y (ANOTHER configuration); run X again - in ONE process - and X / Y alone in fresh processes
+# ----------------------------------------------------------------------------------------
+GRAPHQL_SDL = """
+type Book { id: Int title: String author: Author }
+type Author { id: Int name: String }
+type Query {
+  book(id: Int, title: String, tags: [String]): Book
+  books(limit: Int, after: String): [Book]
+  author(name: String!): Author
+}
+"""
+
+
+def header_schema(rng):
+    """Operations whose requests are dominated by what the process-wide registries decide: plain string headers and cookies (the
+    header-value format), string formats (default and custom ones), path / query strings, string bodies."""
+    paths = {}
+    fmt_pool = [None, None, "date", "uuid", "x-card", "byte", "x-word"]
+    for i in range(rng.randint(2, 3)):
+        params = []
+        seg = f"/op{i}"
+        if rng.random() < 0.5:
+            seg += "/{id}"
+            params.append({"name": "id", "in": "path", "required": True, "schema": {"type": "string"}})
+        for j in range(rng.randint(1, 2)):
+            params.append({"name": f"X-H{j}", "in": "header", "required": j == 0 or rng.random() < 0.5, "schema": {"type": "string"}})
+        if rng.random() < 0.6:
+            params.append({"name": "sid", "in": "cookie", "required": True, "schema": {"type": "string"}})
+        for j in range(rng.randint(1, 2)):
+            f = rng.choice(fmt_pool)
+            sch = {"type": "string"} if f is None else {"type": "string", "format": f}
+            params.append(q(f"q{j}", sch, required=True))
+        method = rng.choice(["get", "post", "put", "patch"])
+        body = None
+        if method != "get":
+            props = {}
+            for j in range(rng.randint(1, 3)):
+                f = rng.choice(fmt_pool)
+                props[f"f{j}"] = {"type": "string"} if f is None else {"type": "string", "format": f}
+            body = {"type": "object", "properties": props, "required": sorted(props)[: rng.randint(1, len(props))], "additionalProperties": False}
+        paths[seg] = {method: _op(params, body)}
+    return _doc(paths)
+
+
+# a configuration = what the user sets besides seed and schema
+CONFIGURATIONS = {
+    "default": {"generation": {}},
+    "no-x00": {"generation": {"allow_x00": False}},
+    "header-strategy": {"generation": {"header_strategy": "words"}},
+    "ascii": {"generation": {"codec": "ascii"}},
+    "no-x00-ascii": {"generation": {"allow_x00": False, "codec": "ascii"}},
+    "custom-formats": {"generation": {}, "formats": {"x-card": "digits", "x-word": "upper"}},
+    "custom-format-no-x00": {"generation": {"allow_x00": False}, "formats": {"x-card": "digits"}},
+    "negative": {"generation": {}, "modes": ["negative"]},
+    "both-modes": {"generation": {}, "modes": ["positive", "negative"]},
+    "no-security": {"generation": {"with_security_parameters": False}},
+    "gql-no-null": {"generation": {"graphql_allow_null": False}},
+    "gql-no-x00": {"generation": {"allow_x00": False, "graphql_allow_null": True}},
+}
+
+
+class History:
+    """Run X; run Y; run X again in one process (+ X alone, Y alone in fresh processes)."""
+
+    def __init__(self, name, x, y, phases, schema=None, graphql=None, max_examples=8):
+        self.name, self.x, self.y, self.phases, self.schema, self.graphql, self.max_examples = name, x, y, list(phases), schema, graphql, max_examples
+
+    def run_spec(self, cfg_name, seed, carriers):
+        cfg = CONFIGURATIONS[cfg_name]
+        spec = {"phases": self.phases, "modes": cfg.get("modes", ["positive"]), "seed": seed, "workers": 1, "max_examples": self.max_examples,
+                "responder": "ok", "preimport": True, "generation": cfg["generation"], "formats": cfg.get("formats") or {}, "carriers": carriers}
+        if self.graphql is not None:
+            spec["graphql"] = self.graphql
+        else:
+            spec["schema"] = self.schema
+        return spec
+
+    def scenario(self, cfg_name) -> "Scenario":
+        return Scenario(f"{self.name}[{cfg_name}]", self.schema if self.graphql is None else {"graphql": self.graphql}, self.phases,
+                        CONFIGURATIONS[cfg_name].get("modes", ["positive"]), strict=True, preimport=True, max_examples=self.max_examples)
+
+
+def histories(rng, quick: bool, mult: int) -> list[History]:
+    out = []
+    fixed = [
+        ("default", "no-x00", ["fuzzing"]),
+        ("no-x00", "default", ["fuzzing"]),
+        ("default", "header-strategy", ["fuzzing"]),
+        ("default", "custom-formats", ["fuzzing"]),
+        ("custom-formats", "custom-format-no-x00", ["fuzzing"]),
+        ("default", "ascii", ["fuzzing"]),
+        ("default", "negative", ["fuzzing"]),
+    ]
+    for i, (x, y, phases) in enumerate(fixed):
+        out.append(History(f"h{i}-{x}-then-{y}", x, y, phases, schema=header_schema(rng)))
+    out.append(History("h-stateful-default-then-no-x00", "default", "no-x00", ["stateful"], schema=stateful_schema(), max_examples=3))
+    out.append(History("h-multifile-default-then-no-x00-ascii", "default", "no-x00-ascii", ["fuzzing"], schema=multi_file(header_schema(rng))))
+    out.append(History("h-graphql-default-then-no-null", "default", "gql-no-null", ["fuzzing"], graphql=GRAPHQL_SDL))
+    out.append(History("h-graphql-no-x00-then-default", "gql-no-x00", "default", ["fuzzing"], graphql=GRAPHQL_SDL))
+    names = [n for n in CONFIGURATIONS if not n.startswith("gql")]
+    for i in range((2 if quick else 30) * mult):
+        x, y = rng.sample(names, 2)
+        phases = rng.choice([["fuzzing"], ["fuzzing"], ["examples", "coverage", "fuzzing"], ["stateful"]])
+        if phases == ["stateful"]:
+            out.append(History(f"hr{i}-{x}-then-{y}", x, y, phases, schema=stateful_schema(), max_examples=3))
+        else:
+            sch = header_schema(rng)
+            out.append(History(f"hr{i}-{x}-then-{y}", x, y, phases, schema=multi_file(sch) if rng.random() < 0.3 else sch))
+    return out
+
+
+def c_entries(entries) -> str:
+    return clist([ctuple(cN(a), cN(b), cN(c)) for a, b, c in entries], "(N * N * N)")
+
+
+def check_snapshots(chk, hist_results, carrier_class: dict, stage: dict):
+    """The contents of the process-wide containers right before / right after every real run, judged by the Gallina definitions the
+    theorem C13_safe_entries_survive_runs is about: entries of Memo sites are never overwritten, Registry sites and constants do
+    not change at all.  (RunWritten sites: nothing is claimed.)"""
+    exprs, meta = [], []
+    for (h, seed, position, cfg_name), run in hist_results:
+        before, after = run.get("snap_before") or [], run.get("snap_after") or []
+        memo_b = [e for e in before if carrier_class.get(e[0]) == "Memo"]
+        memo_a = [e for e in after if carrier_class.get(e[0]) == "Memo"]
+        fix_b = [e for e in before if carrier_class.get(e[0]) in ("Registry", "Constant")]
+        fix_a = [e for e in after if carrier_class.get(e[0]) in ("Registry", "Constant")]
+        stage["snapshots"] += 1
+        stage["entries"] += len(after)
+        exprs.append(f"(overwritten_sites {c_entries(memo_b)} {c_entries(memo_a)} ++ changed_sites {c_entries(fix_b)} {c_entries(fix_a)})")
+        meta.append((h, seed, position, cfg_name, len(memo_a) - len(memo_b)))
+    if not exprs:
+        return
+    for (h, seed, position, cfg_name, grown), bad in zip(meta, core.coq_eval(IMPORTS, exprs)):
+        chk.seen({"snapshot": [h.name, seed, position]}, grown > 0)
+        if bad:
+            stage["overwritten"] += 1
+            chk.disagree("process-wide containers around a real run vs Model_C13 (Memo entries survive a run, Registry sites and constants do not change)",
+                         {"history": h.name, "seed": seed, "run": position, "configuration": cfg_name, "sequence": [h.x, h.y, h.x]},
+                         {"changed_carried_sites": sorted(set(bad))}, [])
+
+
 def region_for(kind: str, phase: str, negative: bool) -> str:
     """Region names of the listed findings; anything else (an ambient kind in a phase where no finding is listed) stays unlisted.
     HashOrder has no region any more (F4, F5 are fixed): a divergence that only PYTHONHASHSEED explains is a violation."""
@@ -315,7 +463,7 @@ def region_for(kind: str, phase: str, negative: bool) -> str:
     return f"unlisted_{kind}_{phase}"
 
 
-def compare_pair(chk, plan, sc: Scenario, seed, label: str, r1: dict, r2: dict, same_hash: bool):
+def compare_pair(chk, plan, sc: Scenario, seed, label: str, r1: dict, r2: dict, same_hash: bool, extra: dict | None = None):
     """Compare two one-worker runs phase by phase; classify any divergence."""
     negative = "negative" in sc.modes
     p1, p2 = split_by_phase(r1), split_by_phase(r2)
@@ -331,11 +479,11 @@ def compare_pair(chk, plan, sc: Scenario, seed, label: str, r1: dict, r2: dict, 
             f1 = [f for f in r1["failures"] if EVENT_PHASE.get(f[0]) == phase]
             f2 = [f for f in r2["failures"] if EVENT_PHASE.get(f[0]) == phase]
             if f1 != f2:
-                chk.fail("same seed, same requests, different reported failures", {"scenario": sc.name, "seed": seed, "pair": label, "phase": phase},
+                chk.fail("same seed, same requests, different reported failures", {"scenario": sc.name, "seed": seed, "pair": label, "phase": phase, **(extra or {})},
                          {"first": f1[:5], "second": f2[:5]})
             continue
         chk.count("pair_diverged")
-        case = {"scenario": sc.name, "seed": seed, "pair": label, "phase": phase, "modes": sc.modes, "schema": sc.schema, "diff": first_diff(a, b)}
+        case = {"scenario": sc.name, "seed": seed, "pair": label, "phase": phase, "modes": sc.modes, "schema": sc.schema, "diff": first_diff(a, b), **(extra or {})}
         # candidate causes, from the recorded evidence
         kinds = []
         if e1["unseeded_consulted"] or e2["unseeded_consulted"]:
@@ -399,7 +547,8 @@ def run(chk: core.Check):
         "Coq 8.16.1 kernel, vm_compute; no axioms",
         "hand-written Model_C13.v (entropy-flow model run/draw/entropy, interleave) - the foreign generator is the parameter gen",
         "harness/props/c13_translate.py: the ast translator that extracts gen_sites / gen_cli_seed from the source (fail closed; name-based call graph over 4 modules; syntactic set-iteration scan over 6 modules)",
-        "harness/props/c13_runner.py: instrumentation of hypothesis.core.get_random_for_wrapped_test / hypothesis.seed / choose_boundary, loopback recorder",
+        "harness/props/c13_runner.py: instrumentation of hypothesis.core.get_random_for_wrapped_test / hypothesis.seed / choose_boundary, loopback recorder, identity-token snapshots of the process-wide containers",
+        "harness/props/c13_translate.py process_state_scan: syntactic scan for in-place mutations of module-level objects / lru_cache results / class-level attributes (aliases through locals, fetched elements, un-cached wrappers and parameter-mutating package functions) + the hand classification tables PROCESS_STATE_CLASSIFIED / CACHED_CLASSIFIED whose evidence is re-verified on every run",
         "Hypothesis 6.168: a test draws randomness only from the PRNG returned by get_random_for_wrapped_test",
     ]
     chk.assumptions = [
@@ -407,6 +556,7 @@ def run(chk: core.Check):
         "Hypothesis is deterministic given an explicit seed, the strategy and the sequence of test outcomes (checked empirically by the oracle, not proved)",
         "workers theorem: generation for one operation does not read state written while another operation is generated (Section hypothesis gen_op); checked empirically for 2-3 workers against a stateless API",
         "the loopback API is deterministic and stateless; Host and X-Schemathesis-TestCaseId headers are outside the contract",
+        "process history: a carried site classified Memo stores under a key only what that key determines (identity-keyed caches: the key object is created per run; file caches: the file does not change during the process); custom string formats are configuration and are unregistered by the user before a run that does not want them",
     ]
     chk.rule = (
         "scenarios = fixed witnesses (examples fill-in, coverage draw, multipart, negative mutation, swagger2 example/x-example) + schemas drawn from "
@@ -414,7 +564,10 @@ def run(chk: core.Check):
         "exposing palette (not/pattern/multipleOf/format/exclusiveMinimum)), single- and multi-file; engine seed drawn per scenario; each scenario = "
         "3 fresh processes (2 runs in the first; same PYTHONHASHSEED; different PYTHONHASHSEED); configured scenarios add generic request headers "
         "(NetworkConfig.headers, with and without User-Agent) and Override(headers/query/cookies) for parameters that only a strict subset of the operations "
-        "define; worker scenarios (1/2/3 workers) come plain and configured with a slow first operation; non-trivial = the phase sent at least 2 requests"
+        "define; worker scenarios (1/2/3 workers) come plain and configured with a slow first operation; process histories X;Y;X in one process + X, Y in fresh "
+        "processes over configuration pairs (allow_x00, header strategy, codec, custom string formats, modes, security parameters, GraphQL nullables; "
+        "fixed pairs in both orders + pairs drawn from VERIF_SEED) on schemas with plain string headers/cookies/formats, the stateful demo schema, "
+        "multi-file schemas sharing one directory per process and a GraphQL schema; non-trivial = the phase sent at least 2 requests"
     )
 
     # ---- 0. translate the source into Gen_C13.v
@@ -424,12 +577,14 @@ def run(chk: core.Check):
         translated = c13_translate.translate()
         c13_translate.write_gen(gen_path, translated["text"])
         for problem in translated["problems"]:
-            chk.broken.append({"kind": "translate", "what": "c13_translate: entropy primitives of the source differ from the classified ones", "detail": problem})
+            chk.broken.append({"kind": "translate", "what": "c13_translate: entropy primitives / process-wide state of the source differ from the classified ones", "detail": problem})
         chk.stages["translate"] = {
             "sites": [{"id": s["id"], "tag": list(s["tag"]), "phases": s["phases"], "neg_only": s["neg_only"], "multipart_only": s["multipart_only"],
                        "in_request": s["in_request"], "where": s["where"]} for s in translated["sites"]],
             "gen_cli_seed": translated["cli"],
             "entropy_primitives_classified": len(translated["primitives"]),
+            "carried_sites": [{"id": c["id"], "class": c["cclass"], "phases": c["phases"], "in_request": c["in_request"], "where": c["where"]} for c in translated["carried"]],
+            "snapshot_carriers": len(translated["snapshot_carriers"]),
         }
     except c13_translate.TranslationError as exc:
         chk.broken.append({"kind": "translate", "what": "c13_translate: the source no longer has the shape the plan is extracted from", "detail": str(exc)})
@@ -456,6 +611,23 @@ def run(chk: core.Check):
             got = {"seeded": seeded, **ids}
             if got != v:
                 chk.disagree("translator sites vs Gen_C13.gen_sites evaluated in Coq", [p, n, m], got, v)
+
+    # the carried sites (process-wide state) as Coq sees them
+    carried_coq = core.coq_eval(IMPORTS, ["map (fun c => (c_id c, c_safe c)) gen_carried"])[0]
+    unsafe_coq = core.coq_eval(IMPORTS, ["unsafe_table gen_carried"])[0]
+    ctx_order = [(p, n, m) for p in PHASE_CTOR for n in (False, True) for m in (False, True)]
+    chk.stages["carried_plan"] = {"sites": len(carried_coq), "unsafe": {f"{p}/{'neg' if n else 'pos'}/{'multipart' if m else 'plain'}": ids for (p, n, m), ids in zip(ctx_order, unsafe_coq) if ids}}
+    unsafe_by_phase = {p: sorted({i for (pp, n, m), ids in zip(ctx_order, unsafe_coq) if pp == p for i in ids}) for p in PHASE_CTOR}
+    carrier_class, carriers = {}, []
+    if translated is not None:
+        got = [(c["id"], c["cclass"] != "RunWritten") for c in translated["carried"]]
+        if got != [tuple(x) for x in carried_coq]:
+            chk.disagree("translator carried sites vs Gen_C13.gen_carried evaluated in Coq", "gen_carried", got, carried_coq)
+        want_unsafe = [[c["id"] for c in translated["carried"] if c["cclass"] == "RunWritten" and c["in_request"] and PHASE_CTOR[p] in c["phases"]] for (p, n, m) in ctx_order]
+        if want_unsafe != unsafe_coq:
+            chk.disagree("translator carried sites vs unsafe_table gen_carried evaluated in Coq", "unsafe_table", want_unsafe, unsafe_coq)
+        carrier_class = {c["id"]: c["cclass"] for c in translated["snapshot_carriers"]}
+        carriers = [{k: c[k] for k in ("id", "module", "name", "call")} for c in translated["snapshot_carriers"]]
 
     # ---- scenarios
     mult = 10 if chk.broken else 1
@@ -519,6 +691,14 @@ def run(chk: core.Check):
         wscen.append(sc)
         for w in (1, 2, 3):
             jobs.append((sc, f"W{w}", sc.spec(seeds[sc.name], workers=w), hash_a))
+    # process history: X; Y; X in one process, X and Y alone in fresh processes
+    hists = histories(rng, quick, mult)
+    for h in hists:
+        seeds[h.name] = rng.choice([0, 1, 2**31]) if rng.random() < 0.2 else rng.randrange(1, 10**6)
+        sx, sy = h.run_spec(h.x, seeds[h.name], carriers), h.run_spec(h.y, seeds[h.name], carriers)
+        jobs.append((h, "SEQ", {"sequence": [sx, sy, sx]}, hash_a))
+        jobs.append((h, "FX", sx, hash_a))
+        jobs.append((h, "FY", sy, hash_a))
     # different seeds are free to differ (counted, nothing demanded)
     dsc = Scenario("different-seeds", gen_schema(rng, 2), ["fuzzing"])
     jobs.append((dsc, "D1", dsc.spec(11), hash_a))
@@ -540,6 +720,11 @@ def run(chk: core.Check):
             ctx = (phase, "negative" in sc.modes, sc.multipart)
             for k in range(6):
                 need.add((ctx, seeds[sc.name], k))
+    for h in hists:
+        for cfg_name in (h.x, h.y):
+            for phase in h.phases:
+                for k in range(6):
+                    need.add(((phase, "negative" in CONFIGURATIONS[cfg_name].get("modes", ["positive"]), False), seeds[h.name], k))
     need = sorted(need, key=str)
     vals = core.coq_eval(IMPORTS, [f"seeded_values gen_sites {c_ctx(*ctx)} {cN(seed)} {cN(k)}" for ctx, seed, k in need])
     plan_seeds = dict(zip(need, vals))
@@ -570,6 +755,37 @@ def run(chk: core.Check):
         if len(chk.samples) < 3:
             chk.sample({"scenario": sc.name, "seed": s, "phases": sc.phases, "modes": sc.modes, "requests": [[r["method"], r["target"], r["body"][:60]] for r in a1["requests"][:4]]})
     chk.stages["same_seed_pairs"] = {"scenarios": len(scenarios), "processes": len(jobs), "hashseeds": [hash_a, hash_b], "engine_errors_seen": n_errors}
+
+    # ---- process history: the traffic of a run must not depend on the runs that preceded it in the process
+    hstage = {"histories": len(hists), "compared": 0, "snapshots": 0, "entries": 0, "overwritten": 0, "configurations": sorted({c for h in hists for c in (h.x, h.y)})}
+    hist_runs = []
+    for h in hists:
+        seq, fx, fy = by.get((h.name, "SEQ")), by.get((h.name, "FX")), by.get((h.name, "FY"))
+        if not (seq and fx and fy) or len(seq) != 3:
+            continue
+        s = seeds[h.name]
+        scx, scy = h.scenario(h.x), h.scenario(h.y)
+        seeds[scx.name] = seeds[scy.name] = s
+        extra = {"sequence": [h.x, h.y, h.x], "configuration": CONFIGURATIONS[h.x], "other_configuration": CONFIGURATIONS[h.y], "max_examples": h.max_examples}
+        for phase, reqs in split_by_phase(seq[0]).items():
+            chk.seen({"history": h.name, "seed": s, "phase": phase, "n": len(reqs), "first": reqs[:1]}, len(reqs) >= 2)
+        for r, sc in ((seq[0], scx), (seq[1], scy), (seq[2], scx), (fx[0], scx), (fy[0], scy)):
+            n_errors += len(r["errors"])
+            check_seeds(chk, plan_seeds, sc, s, r)
+        hstage["compared"] += 1
+        # X, then Y, then X again: the third run against the first
+        compare_pair(chk, plan, scx, s, "same-process-after-a-run-with-another-configuration", seq[0], seq[2], True, extra)
+        # the run in a used process against the same run in a fresh process
+        compare_pair(chk, plan, scx, s, "used-process-vs-fresh-process", seq[2], fx[0], True, extra)
+        compare_pair(chk, plan, scy, s, "second-run-of-the-process-vs-fresh-process", seq[1], fy[0], True,
+                     {**extra, "configuration": CONFIGURATIONS[h.y], "other_configuration": CONFIGURATIONS[h.x], "sequence": [h.x, h.y]})
+        if seq[0]["requests"] != seq[1]["requests"]:
+            chk.count("history:configurations_send_different_traffic")
+        for position, (run, cfg_name) in enumerate(((seq[0], h.x), (seq[1], h.y), (seq[2], h.x))):
+            hist_runs.append(((h, s, position, cfg_name), run))
+    check_snapshots(chk, hist_runs, carrier_class, hstage)
+    hstage["unsafe_sites_by_phase"] = unsafe_by_phase
+    chk.stages["process_history"] = hstage
 
     # ---- workers
     wstage = {"comparisons": 0, "skipped_ambient": 0, "order_checked_in_coq": 0}
@@ -678,6 +894,19 @@ def replay(payload) -> int:
         print("failing input:", f.get("what"))
         print("  scenario:", case.get("scenario"), "seed:", case.get("seed"), "pair:", case.get("pair"), "phase:", case.get("phase"))
         print("  first difference:", json.dumps(case.get("diff"))[:600])
+        if "other_configuration" in case and case.get("phase"):
+            def hspec(cfg):
+                sp = {"phases": [case["phase"]], "modes": cfg.get("modes", ["positive"]), "seed": case["seed"], "workers": 1, "max_examples": case.get("max_examples", 8),
+                      "preimport": True, "generation": cfg["generation"], "formats": cfg.get("formats") or {}}
+                sp.update({"graphql": case["schema"]["graphql"]} if "graphql" in case["schema"] else {"schema": case["schema"]})
+                return sp
+            x, y = hspec(case["configuration"]), hspec(case["other_configuration"])
+            print("  configuration:", json.dumps(case["configuration"]), " other configuration:", json.dumps(case["other_configuration"]), " order:", case.get("sequence"))
+            seq = child({"sequence": [x, y, x] if len(case.get("sequence", [])) == 3 else [y, x]}, "0")["runs"]
+            fresh = child(x, "0")["runs"][0]["requests"]
+            print("  re-run: the run in a process that ran the other configuration first vs the same run in a fresh process:",
+                  "DIFFERENT" if seq[-1]["requests"] != fresh else "equal")
+            continue
         if "schema" in case and case.get("phase"):
             spec = {"schema": case["schema"], "phases": [case["phase"]], "modes": case.get("modes", ["positive"]), "seed": case["seed"], "workers": 1, "max_examples": 4, "repeat": 1}
             a = child(spec, "0")["runs"][0]["requests"]
